@@ -1292,6 +1292,8 @@ def check_C05(A, R, tier):
                 okp = okp and guarded
         R.ob("R5.4", "%s | the transfer is on every regular path from the end of the batch to the return" % short(sp.name), okp,
              detail="a path returns without moving the new signals into the queue (and without an emptiness test)")
+    # R5.5 (necessary for progress): the requirement summary never passes over an undecided downstream
+    rule_undecided_downstream(A, R, "R5.5")
     R.explanation = ("Decided: each job is started at most once (phase typestate over the complete transition relation), and a finished "
                      "evaluation has nothing ready or running (ready-set pairing, disjoint classes, running report is a scan).  "
                      "Necessary conditions for progress: every finishing write announces the job, the announcement reconsiders every "
@@ -1608,3 +1610,104 @@ def rule_skip_decision(A, R, rule):
             R.ob(rule, "%s | consider handler from %s | skipping the delayed Ephemeral requires that no consuming downstream can still run"
                  % (short(v["fn"]), A.sname(s)), ok, detail=why, site=A.site(v))
     R.floor(rule, "skip decisions for delayed Ephemerals", n, 1)
+
+
+# =============================================================================================
+# R5.5: an undecided downstream is never counted as "does not need the Ephemeral"
+
+def requirement_functions(A):
+    """helpers f(dag, jobs, key) -> EdgeFlag | Result<EdgeFlag> with one loop over the Outgoing neighbours of the key"""
+    flag_tys = set(f["ty"].get("adt") for f in A.L.edge_fields if f["ty"].get("adt") in A.uni.fin)
+    out = []
+    for b in A.evaluator_methods():
+        rt = b.locals[0]
+        s = rt["s"]
+        ok = rt.get("adt") in flag_tys or any(s.startswith("std::result::Result<%s," % t) for t in flag_tys)
+        if ok and b.vis != "Public" and any(b.locals[i]["s"] == "usize" for i in range(1, b.arg_count + 1)):
+            out.append(b)
+    return out
+
+
+def rule_undecided_downstream(A, R, rule):
+    from interp import Interp, Config
+    from domain import av_set
+    C = A.classes()
+    K = kinds(A)
+    H = A.handler_runs()
+    # undecided: pending states in which the consider handler still consults a comparison (validation not settled)
+    undecided = set()
+    for s in A.JS:
+        if s in C["Finished"] or s in C["Ready"] or s in C["Running"] or s not in A.reach():
+            continue
+        run = H[(K["consider"], s)]
+        if run.by_kind("strategy_call") or run.by_kind("cmp"):
+            undecided.add(s)
+    R.info["undecided_states"] = A.snames(undecided)
+    fns = requirement_functions(A)
+    n = 0
+    for b in fns:
+        I = Interp(A.facts, A.uni, A.layout, Config(label="REQ"))
+        fr, out, col = I.analyze(b)
+        ins = col["ins"]
+        nb = [v for k, v in I.rec.facts.items() if k[0] == "neighbors" and v["fid"] == fr.fid and v["dir"] == "Outgoing" and is_role(v["key"], "param")]
+        heads = [h for h in set(h for (_, h) in b.back_edges())
+                 if b.term(h)["k"] == "call" and (M.callee_name(b.term(h)) or "").endswith("::next")]
+        if len(nb) != 1 or len(heads) != 1:
+            continue
+        h = heads[0]
+        region, cont = loop_region(b, h, A)
+        if cont is None:
+            continue
+        loop = b.natural_loop(h)
+        sw = b.term(h)["t"]
+        somes = [s_ for s_ in b.succs(sw) if s_ in loop]
+        sym = ("b", fr.fid, h, "nbr")
+        flags, bad = monotone_flags(A, b, h)
+        # initial values of the accumulators (constants assigned before the loop)
+        init = {}
+        for blk in b.blocks:
+            if blk["cleanup"] or blk["i"] in region:
+                continue
+            for st in blk["stmts"]:
+                if st["k"] == "assign" and not st["p"]["p"] and st["p"]["l"] in flags and st["r"]["k"] == "use" and "const" in st["r"]["o"]:
+                    init[st["p"]["l"]] = ("fin", BOOL, frozenset([(1,) if st["r"]["o"]["const"] == "true" else (0,)]), ())
+        flag_ty = [f["ty"]["adt"] for f in A.L.edge_fields if f["ty"].get("adt") in A.uni.fin]
+        combos = [()]
+        for ft in flag_ty:
+            combos = [c + (x,) for c in combos for x in A.uni.fin[ft]]
+        for d in sorted(undecided):
+            silent = []
+            for combo in combos:
+                for s0 in somes:
+                    if s0 not in ins:
+                        continue
+                    st = ins[s0].copy()
+                    for l, v in init.items():
+                        st.locals[(fr.fid, l)] = v
+                    cell = st.heap.get(("job", sym))
+                    if cell is None or cell[0] != "adt":
+                        continue
+                    st.heap[("job", sym)] = av_set(cell, (("f", A.L.state_field),), fin(A.L.jobstate, [d]), A.uni)
+                    fields = []
+                    ci = 0
+                    for f in A.L.edge_fields:
+                        if f["ty"].get("adt") in A.uni.fin:
+                            fields.append(fin(f["ty"]["adt"], [combo[ci]]))
+                            ci += 1
+                        else:
+                            fields.append(TOP)
+                    from domain import adt as mkadt
+                    st.heap["__edge_default__"] = mkadt(A.L.edgeinfo, {0: tuple(fields)})
+                    for hk in [hk for hk in st.heap if isinstance(hk, tuple) and hk and hk[0] == "edge"]:
+                        del st.heap[hk]
+                    col2 = {}
+                    I.run(fr, st, start=s0, stops={h}, collect=col2)     # an early return is a definite answer, not silence
+                    for b_, s2 in col2["stops"].items():
+                        same = all((s2.locals.get((fr.fid, l)) or ("top",))[0] == "fin" and (v[2] & s2.locals[(fr.fid, l)][2]) for l, v in init.items())
+                        if same:
+                            silent.append(tuple(A.uni.show(t_, x) for t_, x in zip(flag_ty, combo)))
+            n += 1
+            R.ob(rule, "%s | downstream still undecided (%s) | is never passed over as 'not needed'" % (short(b.name), A.sname(d)), not silent,
+                 detail="with edge flags %s an undecided downstream leaves the answer untouched, so the Ephemeral can be judged unnecessary "
+                        "while a consumer may still turn out to need it" % sorted(set(silent))[:3])
+    R.floor(rule, "requirement-summary functions x undecided downstream states", n, 2)
